@@ -294,6 +294,10 @@ def all_cases(tier, seed):
         cases.append((c, 'tcp'))
     for c in es_configs(tier, seed):
         cases.append((c, 'udp'))
+    # the firmware version words of the device info, swept one at a time (no branch of the poll may hang on them)
+    from ..configs import firmware_configs
+    for c in firmware_configs():
+        cases.append((c, 'udp'))
     return cases
 
 
